@@ -8,7 +8,7 @@ DEMO=$(ls demo_$P*.py test_demo_$P*.py 2>/dev/null | head -1)
 cp $DEMO $D/ 2>/dev/null
 run_demo() { case "$DEMO" in test_*) /venv/bin/python -m pytest -q -p no:cacheprovider $DEMO >/dev/null 2>&1;; *) /venv/bin/python $DEMO >/dev/null 2>&1;; esac; echo $?; }
 WITH=$(run_demo)
-git stash -q; WITHOUT=$(run_demo); git stash pop -q
+git apply -R $D/patch.diff; WITHOUT=$(run_demo); git apply $D/patch.diff
 TESTS=$(python3 /verif/tools/baseline_check.py $WT | head -1)
 CHK=$(cd /verif && PVC_REPO=$WT ./check $P 2>&1 | grep -c "^VIOLATION property=$P")
 CHKLINE=$(cd /verif && PVC_REPO=$WT ./check $P 2>&1 | grep "failed obligation" | head -3 | tr '\n' ';')
@@ -16,7 +16,7 @@ cat > $D/meta.json <<EOM
 {"id": "$ID", "property": "$P", "needs": "$NEEDS",
  "demo": "$DEMO", "demo_exit_with_change": $WITH, "demo_exit_without_change": $WITHOUT,
  "test_suite": "$TESTS", "base_commit": "$(git rev-parse --short HEAD)",
- "ran": ["demo with/without change (git stash)", "python3 /verif/tools/baseline_check.py <worktree>", "PVC_REPO=<worktree> ./check $P"],
+ "ran": ["demo with/without change (git apply -R / git apply of the patch)", "python3 /verif/tools/baseline_check.py <worktree>", "PVC_REPO=<worktree> ./check $P"],
  "detected_by_quick_check": $( [ "$CHK" -gt 0 ] && echo true || echo false ), "failed_obligations": "$CHKLINE"}
 EOM
 cat $D/meta.json
